@@ -67,7 +67,9 @@ Step ==
                IF ~Has(a, e.p, "acq") THEN Fail("C12.entered_without_request")
                ELSE LET i == Idx(a, e.p, "acq") IN
                     IF ~br[i].claim \/ e.exc[1] # "unavailable" THEN Fail("C12.unexpected_exception")
-                    ELSE IF br[i].sure THEN Fail("C12.claim_verdict")
+                    \* (after an interrupted transfer the supply may have leaked: the known finding, not a wrong verdict)
+                    ELSE IF br[i].sure THEN (IF e.p \in Ps /\ taint[e.p] THEN Fail("C12.leak_after_interrupted_transfer")
+                                             ELSE Fail("C12.claim_verdict"))
                     ELSE IF t # br[i].t THEN Fail("C12.claim_waited")
                     ELSE br' = Del(i) /\ UNCHANGED <<slo, shi, taint, bad>>
           [] e.e = "u" /\ op \in {"borrow", "claim"} ->
